@@ -580,10 +580,10 @@ def run(tier, seed, replay=None):
 
 
 UNPROVED = [
-    "DeletePartitions with an index list that is not strictly ascending (outside the documented precondition): correspondence only",
+    "DeletePartitions with an index list that is not strictly ascending (outside the documented precondition): which partitions remain is correspondence only (proved for them: every remaining partition is one of the old ones, and the numTriangles invariant is kept - C10_counter_invariant_step)",
     "PrepareTrueTriangles for partitions that still carry strips (NifFile::Load of OB files): totality is proved for strip-free partitions only; strips are covered by the raw correspondence cases and C18_strips_correct",
     "save + reload (NiSkinPartition::Sync, PrepareData, RemoveInvalidTris) is not modelled in Coq: the property is evaluated on the reloaded dumps only",
-    "numTriangles / numStrips counters and the partition flags hasFaces/hasVertexWeights/... are modelled and compared on every case but no theorem is stated about them (C10_remove_empty_keeps_cover takes the counter invariant as a hypothesis)",
+    "numStrips / stripLengths and the partition flags hasFaces/hasVertexWeights/... are modelled and compared on every case but no theorem is stated about them. The numTriangles counter IS proved (coq/Skin/SkinCounters.v): the invariant ks_cnt_inv (numTriangles = number of true triangles; for partitions whose true triangles are not generated yet: numTriangles = length of the triangle list and everything fits the uint16_t counter) is established from ANY state by UpdateSkinPartitions / SetShapePartitions / SetDefaultPartition and preserved by every modelled operation incl. DeletePartitions with any index list and the lazy PrepareTrueTriangles path (C10_counter_invariant_step, _reachable, _run, _run_from_any_state), for shapes with fewer than 65536 triangles and no corner 65535; so RemoveEmptyPartitions loses no triangle in any reachable state (C10_remove_empty_keeps_cover_reachable, C10_remove_empty_loses_no_triangle) without the counter hypothesis. Both bounds are necessary: C10_remove_empty_keeps_cover_refuted_65536 (SetDefaultPartition on 65536 triangles: numTriangles wraps to 0, all triangles would be dropped; a Coq vm_compute witness only: a replay attempt through the harness' CreateShapeFromData route yields a shape capped at 65535 triangles, numTriangles = 65535, nothing lost, and the extracted model needs more than 15 minutes on that size) and C10_remove_empty_keeps_cover_refuted_corner_65535 (the known empty-vertex-map case of corpus/C10)",
 ]
 MODELLED = [
     "float weights: the model normalises over Q; the implementation's binary32 results are compared within 1e-5 (generated weights are k/256, so the sums are exact and only the division rounds). weights_normalised is a statement about exact arithmetic: PARTIAL with respect to IEEE rounding",
